@@ -200,3 +200,37 @@ package interp
 //@   exec-ensures [path:Map;path:2] map: rvIface(destOf(n, f)) == rvIface(rvMakeMap1Op(typ))
 //@   exec-ensures [path:Map;path:3] map-with-size-hint: rvIface(destOf(n, f)) == rvIface(rvMakeMapOp(typ, vInt(operandOf(n.child[2], f))))
 //@   exec-canary [path:Slice;path:4] swapped: rvIface(destOf(n, f)) == rvIface(rvMakeSliceOp(typ, vInt(operandOf(n.child[3], f)), vInt(operandOf(n.child[2], f))))
+
+// v, ok := m[k]: ok tells whether the key is present; v receives a copy of the element when it is and the
+// ZERO value of its type when it is not (Go spec, Index expressions) — whatever v held before.
+//@ func getIndexMap2(n)
+//@   props C04
+//@   opt gen = true
+//@   opt safety = off
+//@   opt opaque-calls = *
+//@   opt opaque-havoc = none
+//@   ints wrap
+//@   exec (f) (ret)
+//@   exec-ensures [path:!n.child[1].rval.IsValid();path:default] present-key-copied: rvValid(rvMapIndexOp(operandOf(n.child[0], f), operandOf(n.child[1], f))) ==> rvIface(operandOf(n.anc.child[0], f)) == rvIface(rvMapIndexOp(operandOf(n.child[0], f), operandOf(n.child[1], f))) && rvInt(operandOf(n.anc.child[0], f)) == rvInt(rvMapIndexOp(operandOf(n.child[0], f), operandOf(n.child[1], f)))
+//@   exec-ensures [path:!n.child[1].rval.IsValid();path:default] absent-key-gives-the-zero-value: !rvValid(rvMapIndexOp(operandOf(n.child[0], f), operandOf(n.child[1], f))) ==> rvInt(operandOf(n.anc.child[0], f)) == 0 && rvString(operandOf(n.anc.child[0], f)) == "" && rvIface(operandOf(n.anc.child[0], f)) == rvZeroX(rvType(operandOf(n.anc.child[0], f)))
+//@   exec-ensures [path:n.child[1].rval.IsValid();path:default] present-constant-key-copied: rvValid(rvMapIndexOp(operandOf(n.child[0], f), n.child[1].rval)) ==> rvIface(operandOf(n.anc.child[0], f)) == rvIface(rvMapIndexOp(operandOf(n.child[0], f), n.child[1].rval)) && rvInt(operandOf(n.anc.child[0], f)) == rvInt(rvMapIndexOp(operandOf(n.child[0], f), n.child[1].rval))
+//@   exec-ensures [path:n.child[1].rval.IsValid();path:default] absent-constant-key-gives-the-zero-value: !rvValid(rvMapIndexOp(operandOf(n.child[0], f), n.child[1].rval)) ==> rvInt(operandOf(n.anc.child[0], f)) == 0 && rvString(operandOf(n.anc.child[0], f)) == "" && rvIface(operandOf(n.anc.child[0], f)) == rvZeroX(rvType(operandOf(n.anc.child[0], f)))
+//@   exec-ensures [path:!n.child[1].rval.IsValid()] status-is-presence: doStatus ==> rvBool(operandOf(n.anc.child[1], f)) == rvValid(rvMapIndexOp(operandOf(n.child[0], f), operandOf(n.child[1], f)))
+//@   exec-ensures [path:n.child[1].rval.IsValid()] status-is-presence-constant-key: doStatus ==> rvBool(operandOf(n.anc.child[1], f)) == rvValid(rvMapIndexOp(operandOf(n.child[0], f), n.child[1].rval))
+//@   exec-ensures continues: ret == next
+
+// a[i] on arrays, slices and strings: the frame slot of the expression receives reflect's Index of the
+// operand at the index operand — the ALIASING value, so that a later assignment through the expression
+// writes the container — and the branch form tests that very element.
+//@ func getIndexArray(n)
+//@   props C04
+//@   opt gen = true
+//@   opt safety = off
+//@   opt opaque-calls = *
+//@   opt opaque-havoc = none
+//@   ints wrap
+//@   exec (f) (ret)
+//@   exec-ensures [path:n.child[1].rval.IsValid()] element-at-the-constant-index: getFrame(f, l).data[i] == rvIndexOp(arrayOf(n.child[0], f), wrapS64(vInt(n.child[1].rval)))
+//@   exec-ensures [path:!n.child[1].rval.IsValid()] element-at-the-index-operand: isIntKind(nodeKind(n.child[1])) ==> getFrame(f, l).data[i] == rvIndexOp(arrayOf(n.child[0], f), wrapS64(rvInt(operandOf(n.child[1], f))))
+//@   exec-ensures [path:n.fnext!=nil] branch-on-the-element: ret == ite(rvBool(getFrame(f, l).data[i]), tnext, fnext)
+//@   exec-ensures [nopath:n.fnext!=nil] continues: ret == tnext
